@@ -158,6 +158,15 @@ def forest_check(prop, tier, seed):
         mcs.append(r_dump)
         rnd.shuffle(states)
         chosen = states[: ((150 if views else 400) if quick else 5200)]
+        # the same forests with one text node emptied: an explicitly created empty text node is a node like any other
+        extra_states = []
+        for st in chosen[: (120 if quick else 2000)]:
+            texts = [i for i, nd in enumerate(st["n"]) if nd["k"] == "text" and nd["t"]]
+            if texts:
+                st2 = json.loads(json.dumps(st))
+                st2["n"][rnd.choice(texts)]["t"] = []
+                extra_states.append(st2)
+        chosen = chosen + extra_states + [gen.sandwich_forest(rnd).state() for _ in range(40 if quick else 600)]
         sp = os.path.join(d, "states.ndjson")
         with open(sp, "w") as f:
             for st in chosen:
@@ -520,6 +529,15 @@ def parser_jobs(prop, tier, seed):
                 counts["enumerated"] += 1
                 if not od.advance():
                     break
+    # bindings made (or shadowed) on an inner element must be gone again behind it: 75 documents x random spellings
+    for doc in X.scope_exit_docs():
+        for rep in range(2 if quick else 12):
+            ch = X.RandomChooser(rnd)
+            if rep % 2 == 0:
+                add("doc", X.render_doc(doc, ch, "doc"), "yes", ids=X.doc_ids(doc), encs=[])
+            else:
+                add("frag", X.render_doc({"kids": [("text", [120]), doc["root"], ("comm", [120])]}, ch, "frag"), "yes", ids=X.doc_ids(doc), encs=[])
+            counts["enumerated"] += 1
     # code -> spec: random documents x random renderings (+ damage catalogue, + fragments)
     ndocs = 250 if quick else 12000
     for k in range(ndocs):
@@ -538,7 +556,12 @@ def parser_jobs(prop, tier, seed):
         counts["random"] += 1
         if mode == "doc" and k % 6 == 1:
             # single-byte encodings with a declaration: only characters on which ISO-8859-1 and windows-1252 agree
-            ldoc = json.loads(json.dumps(doc, default=list).replace("128512", "233"))
+            ltxt = json.dumps(doc, default=list).replace("128512", "233")
+            if k % 12 == 1:
+                # Latin-1 text whose bytes happen to be well-formed UTF-8 ("Ã©" = C3 A9): the declared encoding decides
+                import re as _re
+                ltxt = _re.sub(r"\b233\b", "195, 169", ltxt)
+            ldoc = json.loads(ltxt)
             ldoc = retuple(ldoc)
             label = rnd.choice(["ISO-8859-1", "iso-8859-1", "windows-1252"])
             try:
@@ -674,7 +697,7 @@ SER_NAMES = [["", "a"], ["", "b"], ["u1", "a"], ["u2", "c"]]
 
 
 def rich_text(rnd, brackets=False):
-    alpha = [93, 93, 62, 62, 93, 120, 60, 38, 13] if brackets else [120, 60, 38, 62, 93, 34, 39, 9, 10, 13, 233, 0x1F600, 32, 121]
+    alpha = [93, 93, 62, 62, 93, 120, 60, 38, 13, 233, 0x1F600] if brackets else [120, 60, 38, 62, 93, 34, 39, 9, 10, 13, 233, 0x1F600, 32, 121]
     return [rnd.choice(alpha) for _ in range(rnd.randrange(1, 7))]
 
 
@@ -715,7 +738,7 @@ def ser_check(prop, tier, seed):
     if prop in ("C01", "C14"):
         # every text of length <= 4 (5 thorough) over {x ] > < & CR}: the ]]> guard, the CDATA splitter, CR - under every
         # combination of unescaped_gt and "the parent is a CDATA-section element"
-        bdocs, r_b = dump_states("MCSer.tla", SER_CFG.format(maxlen=4 if quick else 5, attrmax=0, alphabet="{120, 93, 62, 60, 38, 13}"), prop + "_brackets")
+        bdocs, r_b = dump_states("MCSer.tla", SER_CFG.format(maxlen=4 if quick else 5, attrmax=0, alphabet="{120, 93, 62, 60, 13, 233}"), prop + "_brackets")
         mcs.append(r_b)
         rnd.shuffle(bdocs)
         for k, st in enumerate(bdocs[: (3200 if quick else 20000)]):
@@ -1119,10 +1142,20 @@ def random_program(D, rnd):
         elif kind == "setabn":
             count += 1
             made[t] = count
+            # map-style update, or a node created on its own and then appended ("creation and append calls")
+            style = rnd.choice(["set", "set", "node", "any"])
             if nd["k"] == "attr":
-                ops.append(ev("set_attribute", [made[nd["p"]]], ns=nd["ns"], ln=nd["ln"], s=list(nd["t"])))
+                if style == "set":
+                    ops.append(ev("set_attribute", [made[nd["p"]]], ns=nd["ns"], ln=nd["ln"], s=list(nd["t"])))
+                else:
+                    ops.append(ev("new_attribute_node", [], ns=nd["ns"], ln=nd["ln"], s=list(nd["t"])))
+                    ops.append(ev("append_attribute_node" if style == "node" else "any_append", [made[nd["p"]], made[t]]))
             else:
-                ops.append(ev("set_namespace", [made[nd["p"]]], px=nd["ln"], uri=nd["u"]))
+                if style == "set":
+                    ops.append(ev("set_namespace", [made[nd["p"]]], px=nd["ln"], uri=nd["u"]))
+                else:
+                    ops.append(ev("new_namespace_node", [], px=nd["ln"], uri=nd["u"]))
+                    ops.append(ev("append_namespace_node" if style == "node" else "any_append", [made[nd["p"]], made[t]]))
         else:
             s = sibs(t)
             k = s.index(t)
@@ -1165,8 +1198,15 @@ def build_check(prop, tier, seed):
             mcs.append(mc("MCBuild.tla", cfgname, workers=12, timeout=3000, tag=f"C20_all{target}", xmx="16g"))
             os.remove(os.path.join(vlib.SPEC, cfgname))
     # random documents with random valid construction orders
-    for k in range(300 if quick else 10000):
-        doc = X.rand_doc(rnd, size=rnd.choice([4, 8, 14, 25]), depth=rnd.choice([1, 2, 3, 4]), rich=(k % 2 == 0))
+    nrand = 300 if quick else 10000
+    sx = X.scope_exit_docs()
+    for k in range(nrand + (len(sx) if quick else 6 * len(sx))):
+        if k < nrand:
+            doc = X.rand_doc(rnd, size=rnd.choice([4, 8, 14, 25]), depth=rnd.choice([1, 2, 3, 4]), rich=(k % 2 == 0))
+        else:
+            # bindings made on an inner element must be gone again behind it (each document in several spellings)
+            doc = json.loads(json.dumps(sx[(k - nrand) % len(sx)]))
+            doc = retuple(doc)
         # as a target forest
         f = gen.Forest()
         droot = f.add(gen.node("doc"))
@@ -1270,13 +1310,19 @@ def replay(prop, path):
         flat = False
     elif kind == "intern":
         log("interning scenarios are re-driven from their seed: VERIF_SEED=%s ./check C08" % sc.get("seed"))
-        return CHECKS["C08"]("C08", "quick", int(sc.get("seed", 1)))["violations"] and 1 or 0
+        res = CHECKS["C08"]("C08", "quick", int(sc.get("seed", 1)))
+        for vv in res["violations"]:
+            log(f"VIOLATION property=C08 replay={path}")
+        if not res["violations"]:
+            log(f"replay of {path}: no unlisted violation of C08")
+        return 1 if res["violations"] else 0
     else:
         sub, module = {"observe": ("observe", "TraceTree"), "parse": ("parse", "TraceParse"), "ser": ("ser", "TraceSer"),
                        "html": ("html", "TraceHtml"), "build": ("build", "TraceBuild")}[kind]
         jp = os.path.join(d, "job.ndjson")
         with open(jp, "w") as f:
-            f.write(json.dumps(sc["job"]) + "\n")
+            # (a key the job did not have is stored as null in the scenario; TLC's Json module cannot read null)
+            f.write(json.dumps({k: val for k, val in sc["job"].items() if val is not None}) + "\n")
         vlib.run_harness(exe, [sub, "--jobs", jp, "--out", out])
         v = vlib.validate_trace_flat(out, module=module + ".tla", cfg=module + ".cfg", nshards=1, tag="replay")
     bad = [r for r in v["rejects"] if r["prop"] == prop and not r["known"]]
